@@ -23,9 +23,20 @@ Enumerated (quick is a sub-space of thorough; see cases()):
   pdf     RC4-40 / RC4-128 (own writer), AES-128 / AES-256-R5 / AES-256 (pypdf writer in a separate generator process) x user
           password {"", "pw"} x owner password {"", "own"}; AES cases are extracted in a fresh interpreter ("fresh") or in one
           that has extracted an AES-256-R5 file before ("warm")
+          LARGE STREAMS: documents with one long stream of exactly L bytes - the content stream of a page (one text line of numbered
+          words; L = "text<L>") and / or a DCT image (COM-padded JPEG; "img<L>") - under every algorithm with the empty user password
+          ("same as the unencrypted original", image bytes included): each stream is a single RC4 / AES-CBC message of L/16 blocks.
+          quick: text 140000 + image 66000 in one document (RC4-40, RC4-128, AES-128, AES-256-R5), text 65536 (RC4, AES-128), text
+          65535 / 65537 (RC4); thorough: all 5 algorithms x {text 2^k - 1, 2^k, 2^k + 1 for k = 12, 14, 16, 17; text 200000; image
+          65536, 140000; text 140000 + image 66000}, the largest document also with owner / user passwords, through all seams, "warm"
   zip     flag bit 0 (forged) / real ZipCrypto / WinZip-AES (method 99) / strong-encryption flag on member k for every k (and pairs) vs unsupported method / bad CRC / other flags
   7z      7zAES coder in folder k for every layout x coder x chaining x header coding, 7zAES on the encoded header, vs plain
   epub    encryption.xml with EncryptedData for content document k / all, rights.xml, both, vs plain and look-alikes
+          MIXED encryption.xml ("encmix"): a book with n content documents and one embedded font; encryption.xml declares for every
+          content document one of {nothing, aes128-cbc, aes256-cbc, aes256-gcm (xmlenc11), EncryptedData without EncryptionMethod} and for the font one of {nothing, IDPF font
+          obfuscation, Adobe font obfuscation, aes256-cbc}, font entry first / last, both namespace spellings, with / without rights.xml:
+          any cipher entry (or rights.xml) = encrypted whatever else is listed; obfuscated fonts only = plain (EPUB OCF 3 section 4.3:
+          "obfuscation is not encryption" - every content document is readable).  quick: n = 1, 2; thorough: n = 1..3
   fixture the 11 protected fixtures (enc) and every other fixture of the test suite (plain)
 Neighbour / protection families (what sits NEXT to an encryption indicator is not an encryption indicator, and does not mask one):
   zip     every general purpose flag bit 1..15 alone on member k (plain; bits 6 and 13 - strong encryption / masked headers - alone
@@ -76,6 +87,11 @@ FIB_QUICK_BITS = FIB_FLAG_BITS + list(range(0x13 * 8, 0x14 * 8)) + list(range(0x
 FIB_ALL_BITS = list(range(32 * 8))
 PDF_PERM_BITS = [3, 4, 5, 6, 9, 10, 11, 12]           # 1-based bit positions of /P that ISO 32000 table 22 defines
 PDF_PERMS = [-4 & ~(1 << (b - 1)) for b in PDF_PERM_BITS] + [-3904]
+# large streams: plain lengths (bytes) of the long content stream / the DCT image (see pdf_big_streams).  Every stream is one RC4 / AES-CBC
+# message, so these lengths walk the decryptor through many blocks, around the 4 KiB .. 128 KiB powers of two and far beyond them.
+PDF_BIG_QUICK = ["text140000+img66000", "text65536"]
+PDF_BIG_EDGES = ["text%d" % (2 ** k + e) for k in (12, 14, 16, 17) for e in (-1, 0, 1)]
+PDF_BIG_ALL = PDF_BIG_QUICK + [x for x in PDF_BIG_EDGES if x not in PDF_BIG_QUICK] + ["img65536", "img140000", "text200000"]
 XLS_NEAR_IDS = [0x002F ^ (1 << b) for b in range(16)] + [0x2F00]
 XLS_FILEPASS_VARIANTS = ["xor", "rc4", "capi2", "capi3", "capi4"]
 XLS_PROTECT = ["PROTECT", "PASSWORD", "WINDOWPROTECT", "OBJPROTECT", "SCENPROTECT", "PROT4REV", "PROT4REVPASS", "FILESHARING", "WRITEPROT", "all"]
@@ -625,7 +641,70 @@ def _jpeg_mod16(w, h, residue):
     raise AssertionError("unreachable")
 
 
+def _jpeg_len(w, h, total):
+    """the same JPEG with COM segments (filled with position-dependent bytes) so that len(file) == total"""
+    base = _jpeg(w, h)
+    need = total - len(base)
+    if need < 4:
+        raise ValueError("JPEG of %d bytes cannot be padded to %d" % (len(base), total))
+    segs = []
+    while need:
+        n = min(need, 65535 + 2)             # marker (2) + length field (2) + payload
+        if 0 < need - n < 4:
+            n -= 4
+        fill = _dummy(n - 4, "com%d" % len(segs)).replace(b"\xff", b"\xfe")
+        segs.append(b"\xff\xfe" + struct.pack(">H", n - 2) + fill)
+        need -= n
+    out = base[:2] + b"".join(segs) + base[2:]
+    if len(out) != total:
+        raise AssertionError("unreachable")
+    return out
+
+
+def pdf_big_streams(d):
+    """'text<L>', 'img<L>' or 'text<L>+img<M>' -> {"text": L, "img": M}: a document with a stream of exactly L bytes (before
+    encryption) - the content stream of the second page, a single long text line of numbered words - and / or a DCT image of exactly
+    M bytes on the first page (passed through unfiltered)"""
+    out = {}
+    for part in d.split("+"):
+        m = re.fullmatch(r"(text|img)(\d+)", part)
+        if not m or m.group(1) in out:
+            raise ValueError(d)
+        out[m.group(1)] = int(m.group(2))
+    return out
+
+
 def pdf_doc(tk, d):
+    if isinstance(d, str):
+        from verif.gen import pdfw
+        want = pdf_big_streams(d)
+        title, first = tk.new("Z"), tk.new("B")
+        images = {"big": (_jpeg_len(16, 8, want["img"]), "jpeg")} if "img" in want else None
+        page1 = ["unit", [["p", [["t", first]]]] + ([["img", "big"]] if images else []), {}]
+        if "text" not in want:
+            return ["doc", {"title": title}, [page1]], images
+
+        def mk(text):
+            return ["doc", {"title": title}, [["unit", [["p", [["t", first]]]], {}], ["unit", [["p", [["t", text]]]], {}]]]
+
+        def longest(data):
+            return max(int(x) for x in re.findall(rb"/Length (\d+)", data))
+        total = want["text"]
+        n = total - (longest(pdfw.pdf(mk("x" * 100))) - 100)
+        head = tk.new("B")
+        words, size, i = [head], len(head), 0
+        while size < n:
+            w = "w%05d" % i
+            words.append(w)
+            size += 1 + len(w)
+            i += 1
+        text = " ".join(words)[:n]
+        text = text[:-1] + "z" if text.endswith(" ") else text
+        doc = mk(text)
+        if n < 1 or longest(pdfw.pdf(doc)) != total:
+            raise AssertionError("content stream is not %d bytes long" % total)
+        doc[2][0] = page1
+        return doc, images
     if d == 3:
         # image streams (DCT: passed through unfiltered) whose lengths are 0 and 15 modulo the AES block size
         doc = ["doc", {"title": tk.new("Z")}, [["unit", [["p", [["t", tk.new("B")]]], ["img", "j0"]], {}], ["unit", [["img", "j15"], ["p", [["t", tk.new("B")]]]], {}]]]
@@ -679,6 +758,12 @@ def build_pdf(fmt, case):
             raise AssertionError("/P %d not written" % perm)
         return {"data": data, "ext": "pdf", "expect": expect, "orig": orig}
     enc, clone, kat = _aes_pdf(case["alg"], case["user"], case["owner"], case["doc"], _seed(), perm)
+    if isinstance(case["doc"], str):
+        # self-check: the pypdf-written files still carry the long stream as ONE message of (at least) the intended length
+        want = max(pdf_big_streams(case["doc"]).values())
+        for name, blob, least in (("clone", clone, want), ("encrypted copy", enc, want + 16)):
+            if max(int(x) for x in re.findall(rb"/Length (\d+)", blob)) < least:
+                raise AssertionError("the %s does not hold a stream of %d bytes" % (name, least))
 
     return {"data": enc, "ext": "pdf", "expect": expect, "orig": clone, "kat": kat}
 
@@ -761,6 +846,19 @@ def build_7z(fmt, case):
 
 
 XMLENC = "http://www.w3.org/2001/04/xmlenc#"
+# EncryptionMethod algorithms of META-INF/encryption.xml.  Real encryption (W3C XML Encryption 1.0 / 1.1 block ciphers, as written by
+# Readium LCP, Adobe ADEPT, Apple FairPlay ...) versus font obfuscation (EPUB OCF 3 section 4.4 "IDPF font obfuscation" and Adobe's older
+# font mangling), which the OCF specification explicitly says is NOT encryption: only (a prefix of) a font file is XOR-mangled with
+# a key derived from the publication identifier; every content document stays readable.
+EPUB_ALGS = {"aes128-cbc": XMLENC + "aes128-cbc", "aes256-cbc": XMLENC + "aes256-cbc", "aes256-gcm": "http://www.w3.org/2009/xmlenc11#aes256-gcm",
+             "idpf": "http://www.idpf.org/2008/embedding", "adobe": "http://ns.adobe.com/pdf/enc#RC"}
+EPUB_ALGS["nomethod"] = None        # EncryptedData without an EncryptionMethod child (optional in XML Encryption: "known by the recipient")
+EPUB_CIPHERS = ["aes128-cbc", "aes256-cbc", "aes256-gcm", "nomethod"]
+EPUB_OBFUSCATIONS = ["idpf", "adobe"]
+EPUB_CH_ALGS = [None] + EPUB_CIPHERS                            # what encryption.xml declares for a content document
+EPUB_FONT_ALGS = [None] + EPUB_OBFUSCATIONS + ["aes256-cbc"]    # ... and for the embedded font
+# a book whose encryption.xml lists nothing but obfuscated fonts is not encrypted (see above): "plain".  ("any" would leave it unjudged.)
+EPUB_OBFUSCATION_ONLY = "plain"
 
 
 def _encryption_xml(targets, spell):
@@ -776,6 +874,32 @@ def _encryption_xml(targets, spell):
                          f'<CipherData><CipherReference URI="{t}"/></CipherData></EncryptedData>')
     return ('<?xml version="1.0" encoding="UTF-8"?><encryption xmlns="urn:oasis:names:tc:opendocument:xmlns:container" '
             f'xmlns:enc="{XMLENC}">' + "".join(items) + "</encryption>").encode("utf-8")
+
+
+def _encryption_xml_mixed(entries, spell):
+    """entries: [(URI of the resource, algorithm key of EPUB_ALGS)] in document order.  Cipher entries carry a KeyInfo (the content key
+    is retrieved from a licence), obfuscation entries carry none (the key is derived from the package identifier)."""
+    p = "enc:" if spell == "prefixed" else ""
+    ns = "" if spell == "prefixed" else f' xmlns="{XMLENC}"'
+    items = []
+    for uri, alg in entries:
+        ki = ""
+        if alg in EPUB_CIPHERS:
+            ki = ('<ds:KeyInfo xmlns:ds="http://www.w3.org/2000/09/xmldsig#"><ds:RetrievalMethod URI="license.lcpl#/encryption/content_key" '
+                  'Type="http://readium.org/2014/01/lcp#EncryptedContentKey"/></ds:KeyInfo>')
+        em = f'<{p}EncryptionMethod Algorithm="{EPUB_ALGS[alg]}"/>' if EPUB_ALGS[alg] else ""
+        items.append(f'<{p}EncryptedData{ns} Id="ED{len(items)}">{em}{ki}'
+                     f'<{p}CipherData><{p}CipherReference URI="{uri}"/></{p}CipherData></{p}EncryptedData>')
+    data = ('<?xml version="1.0" encoding="UTF-8"?><encryption xmlns="urn:oasis:names:tc:opendocument:xmlns:container" '
+            f'xmlns:enc="{XMLENC}">' + "".join(items) + "</encryption>").encode("utf-8")
+    # self-check with a real XML parser: the EncryptedData elements (xmlenc namespace) declare exactly these algorithms for these resources
+    import xml.etree.ElementTree as ET
+    q = "{%s}" % XMLENC
+    got = [(ed.find(f"{q}CipherData/{q}CipherReference").get("URI"), ed.find(q + "EncryptionMethod").get("Algorithm") if ed.find(q + "EncryptionMethod") is not None else None)
+           for ed in ET.fromstring(data).iter(q + "EncryptedData")]
+    if got != [(u, EPUB_ALGS[a]) for u, a in entries]:
+        raise AssertionError("encryption.xml is not what it should be: %r" % (got,))
+    return data
 
 
 RIGHTS_XML = (b'<?xml version="1.0" encoding="UTF-8"?><adept:rights xmlns:adept="http://ns.adobe.com/adept"><licenseToken>'
@@ -802,6 +926,26 @@ def build_epub(fmt, case):
     elif k == "rights":
         extra["META-INF/rights.xml"] = RIGHTS_XML
         expect = "enc"
+    elif k == "encmix":
+        # a book with n content documents and one embedded font; encryption.xml declares an algorithm per resource (or none)
+        algs, font = list(case["algs"]), case["font"]
+        if len(algs) != n or any(a not in EPUB_CH_ALGS for a in algs) or font not in EPUB_FONT_ALGS or not (font or any(algs)):
+            raise ValueError("encmix case %r" % (case,))
+        entries = []
+        for i, a in enumerate(algs):
+            if a:
+                chapters[i] = _dummy(len(chapters[i]) // 16 * 16 + 16, "ch%d" % i)          # cipher text instead of XHTML
+                entries.append((f"OEBPS/ch{i + 1}.xhtml", a))
+        fe = [("OEBPS/fonts/f.otf", font)] if font else []
+        entries = fe + entries if case["order"] == "font-first" else entries + fe
+        extra["META-INF/encryption.xml"] = _encryption_xml_mixed(entries, case["xspell"])
+        if case["rights"]:
+            extra["META-INF/rights.xml"] = RIGHTS_XML
+        # real OpenType header, then (mangled / cipher / plain) bytes: the extractor has no business in it
+        items = [("font1", "fonts/f.otf", "application/vnd.ms-opentype", (b"OTTO" if not font else b"") + _dummy(2048, "font%s" % font))]
+        real = [a for _, a in entries if a in EPUB_CIPHERS]
+        expect = "enc" if (real or case["rights"]) else EPUB_OBFUSCATION_ONLY
+        return {"data": htmlfam.epub(chapters, {"title": "t"}, extra_items=items, extra_files=extra), "ext": "epub", "expect": expect}
     else:
         look = case.get("look")
         if look == "empty-encxml":
@@ -873,8 +1017,11 @@ def judge(expect, seam, obs, ref):
         elif ref["exc"] is not None:
             pass       # the unencrypted original itself fails: nothing to compare with (not this property)
         elif obs["json"] != ref["json"]:
-            fails.append(("emptypw-differs", f"PDF with empty user password extracts differently from its unencrypted original: {str(obs['json'])[:300]} "
-                                             f"vs {str(ref['json'])[:300]}"))
+            a, b = str(obs["json"]), str(ref["json"])
+            at = next((i for i, (x, y) in enumerate(zip(a, b)) if x != y), min(len(a), len(b)))
+            lo = max(0, at - 60)
+            fails.append(("emptypw-differs", f"PDF with empty user password extracts differently from its unencrypted original: first difference at character {at} of "
+                                             f"the JSON ({len(a)} vs {len(b)} characters): ...{a[lo:at + 120]} vs ...{b[lo:at + 120]}"))
     return fails
 
 
@@ -914,7 +1061,7 @@ def reexec(fmt, case):
 
 NEUTRAL = {"seam": "direct", "doc": 0, "size": 4096, "ver": 3, "method": 0, "stream": "Workbook", "playout": "ppt", "cu": True,
            "spell": "manifest", "xspell": "default", "layout": "solid", "coder": "copy", "header": "plain", "rights": False, "owner": "",
-           "hcoder": "copy", "oext": "docx", "ext": "odt", "where": "path", "mode": "single"}
+           "hcoder": "copy", "oext": "docx", "ext": "odt", "where": "path", "mode": "single", "order": "font-last"}
 # NEUTRAL is not applied to the families whose parameter space is tied to the value: "oext"/"ext" of the protection families (the
 # variants are per format)
 
@@ -990,7 +1137,29 @@ def shrinks(case):
             ok = False
         if isinstance(c.get("target"), int) and c["target"] >= c["n"]:
             ok = False
+        if "algs" in c:
+            c["algs"] = list(case["algs"][:-1])
+            ok = bool(c["font"] or any(c["algs"]))
         if ok:
+            yield c
+    if "algs" in case:                      # EPUB encryption.xml: drop one entry
+        for i, a in enumerate(case["algs"]):
+            if a and (case["font"] or any(x for j, x in enumerate(case["algs"]) if j != i)):
+                c = dict(case)
+                c["algs"] = [None if j == i else x for j, x in enumerate(case["algs"])]
+                yield c
+        if case["font"] and any(case["algs"]):
+            c = dict(case)
+            c["font"] = None
+            yield c
+        for i, a in enumerate(case["algs"]):                    # ... or turn it into the first cipher / obfuscation of the alphabet
+            if a and a != EPUB_CIPHERS[0]:
+                c = dict(case)
+                c["algs"] = [EPUB_CIPHERS[0] if j == i else x for j, x in enumerate(case["algs"])]
+                yield c
+        if case["font"] in EPUB_OBFUSCATIONS[1:]:
+            c = dict(case)
+            c["font"] = EPUB_OBFUSCATIONS[0]
             yield c
     if isinstance(case.get("entry"), int) and case["entry"] > 0:
         c = dict(case)
@@ -1018,6 +1187,19 @@ def embeds(small, big):
             continue
         if key == "bits":
             if not set(v) <= set(big.get("bits", [])):
+                return False
+            continue
+        if key == "algs":                   # the small book's cipher entries occur in the big one
+            have = [a for a in big.get("algs", []) if a]
+            for a in sorted((a for a in v if a), key=lambda a: a == EPUB_CIPHERS[0]):
+                hit = a if a in have else (have[0] if have and a == EPUB_CIPHERS[0] else None)     # the first cipher stands for any cipher
+                if hit is None:
+                    return False
+                have.remove(hit)
+            continue
+        if key == "font":
+            bf = big.get("font")
+            if v is not None and bf != v and not (v == EPUB_OBFUSCATIONS[0] and bf in EPUB_OBFUSCATIONS):
                 return False
             continue
         if key == "perm":
@@ -1146,6 +1328,20 @@ def base_cases(tier):
     for alg in PDF_AES:
         if not (q and alg == "AES-256"):
             yield "pdf", {"k": "enc", "alg": alg, "user": "", "owner": "", "doc": 3, "state": "fresh"}, ["direct"]
+    # large streams (many cipher blocks per message); the other password pairs on the largest document only
+    for alg in PDF_RC4 + PDF_AES:
+        rc4, r6 = alg in PDF_RC4, alg == "AES-256"
+        if q:
+            docs = [] if r6 else (PDF_BIG_QUICK + [x for x in PDF_BIG_EDGES[6:9] if x not in PDF_BIG_QUICK] if rc4 else PDF_BIG_QUICK if alg == "AES-128" else PDF_BIG_QUICK[:1])
+        else:
+            docs = PDF_BIG_ALL
+        for d in docs:
+            big = d == PDF_BIG_QUICK[0]
+            for user, owner in (PWS[:3] if big and not q and not r6 else PWS[:1]):
+                state = "inproc" if rc4 else "fresh"
+                yield "pdf", {"k": "enc", "alg": alg, "user": user, "owner": owner, "doc": d, "state": state}, SEAMS if big and not q and not user and not r6 else ["direct"]
+                if big and not q and not user and not owner and alg in PDF_AES[:2]:
+                    yield "pdf", {"k": "enc", "alg": alg, "user": user, "owner": owner, "doc": d, "state": "warm"}, ["direct"]
     # permission bits of /P: an empty user password opens the file whatever /P says
     for alg in PDF_RC4:
         for perm in PDF_PERMS:
@@ -1208,6 +1404,17 @@ def base_cases(tier):
                 for rights in (False, True):
                     yield "epub", {"k": "enc", "n": nch, "target": target, "xspell": xspell, "rights": rights}, all_seams if (nch == 1 or not q) else ["direct"]
         yield "epub", {"k": "rights", "n": nch}, all_seams
+        # mixed encryption.xml: an algorithm (or none) per content document and for the embedded font, font entry first / last
+        if nch <= (2 if q else 3):
+            for algs in itertools.product(EPUB_CH_ALGS, repeat=nch):
+                for font in EPUB_FONT_ALGS:
+                    if not (font or any(algs)):
+                        continue            # no entry at all: the "empty-encxml" look-alike below
+                    for order in (("font-last", "font-first") if font and any(algs) else ("font-last",)):
+                        for xspell in (("default", "prefixed") if nch == 1 or not q else ("default",)):
+                            for rights in ((False, True) if nch == 1 else (False,)):
+                                yield "epub", {"k": "encmix", "n": nch, "algs": list(algs), "font": font, "order": order, "xspell": xspell, "rights": rights}, \
+                                    all_seams if (nch == 1 and not rights) or not q else ["direct"]
         for look in (None, "empty-encxml", "oebps-encxml", "text"):
             yield "epub", {"k": "plain", "n": nch, "look": look}, all_seams
     # ---- fixtures
@@ -1268,7 +1475,7 @@ def run(ctx):
     rnd = random.Random(ctx.seed)
     rnd.shuffle(light)
     parts = [{"items": light[i::nparts], "sample": i < 5} for i in range(nparts)]
-    hparts = [{"items": v, "sample": k[0] == "AES-256"} for k, v in sorted(groups.items(), key=lambda kv: (kv[0][0] != "AES-256", kv[0]))]
+    hparts = [{"items": v, "sample": k[0] == "AES-256"} for k, v in sorted(groups.items(), key=lambda kv: (kv[0][0] != "AES-256", tuple(str(x) for x in kv[0])))]
     args = hparts + [p for p in parts if p["items"]]
     res = P.run_all("verif.props.C08", "_part", args, n=ctx.ncpu, hard_timeout=1500)
     ev = skipped = 0
@@ -1304,6 +1511,12 @@ def run(ctx):
            "per_format": per_fmt, "per_expectation": expect_counts, "outcomes": dict(sorted(outs.items())), "samples": samples, "exhaustive": True,
            "bounds": {"tier": ctx.tier, "zip_members": "1..3", "7z_members": "1..3", "epub_chapters": "1..3", "xls_filepass_positions": "every globals record index",
                       "pdf": "5 algorithms x 4 password pairs x documents; AES-256 (R6) reduced to the empty password pair, one document, direct seam in quick",
+                      "pdf_large_streams": ("plain stream lengths " + ", ".join(PDF_BIG_QUICK + PDF_BIG_EDGES[6:9][::2]) + " (RC4-40/128), " + ", ".join(PDF_BIG_QUICK)
+                                            + " (AES-128), " + PDF_BIG_QUICK[0] + " (AES-256-R5); empty passwords, direct seam") if ctx.quick else
+                                           ("plain stream lengths " + ", ".join(PDF_BIG_ALL) + " x 5 algorithms, empty passwords; the first also with owner / user "
+                                            "passwords, through 3 seams and 'warm'"),
+                      "epub_mixed_encryption_xml": "content documents 1..%d x {none, aes128-cbc, aes256-cbc, aes256-gcm, no EncryptionMethod} each x font {none, idpf, adobe, aes256-cbc} x "
+                                                   "entry order x namespace spelling x rights.xml (n = 1)" % (2 if ctx.quick else 3),
                       "ooxml_shell": "8 stream subsets x sizes x CFB versions x 3 readers",
                       "doc_fib_bits": ("every bit of the 32-byte FibBase (256)" if not ctx.quick else "flags word 0x0A (16) + flag byte 0x13 (8) + lKey 0x0E (32)")
                                       + " flipped alone and together with fEncrypted, on each of the 3 .doc fixtures; all other flag-word bits at once",
@@ -1344,6 +1557,13 @@ def run(ctx):
                 "unsupported method / bad CRC / data-descriptor / UTF-8 flag members are plain",
                 "7z: a 7zAES coder in any folder or in the encoded header's folder (7z -mhe) makes the archive encrypted (libarchive agrees)",
                 "EPUB: EncryptedData for a content document, or META-INF/rights.xml, or both = DRM-protected; an encryption.xml without "
-                "EncryptedData, files of those names outside META-INF and the words in text are plain; font obfuscation is not generated",
+                "EncryptedData, files of those names outside META-INF and the words in text are plain",
+                "EPUB: an EncryptedData entry whose EncryptionMethod is a cipher (xmlenc aes128-cbc / aes256-cbc, xmlenc11 aes256-gcm) or absent on any "
+                "resource makes the book encrypted, whatever other entries (font obfuscation) stand before or after it; a book whose "
+                "encryption.xml lists ONLY obfuscated fonts (http://www.idpf.org/2008/embedding, http://ns.adobe.com/pdf/enc#RC) is "
+                "not encrypted: EPUB OCF 3 says 'obfuscation is not encryption', all content documents are readable (constant "
+                "EPUB_OBFUSCATION_ONLY = %r; 'any' = not judged)" % EPUB_OBFUSCATION_ONLY,
+                "PDF large streams: the long content stream / image survives the pypdf rewrite as ONE stream of the intended length (self-"
+                "checked on the written files); 'same' includes the image bytes",
                 "CLI: 'rejected' = non-zero exit status and nothing on stdout; the exception type is observed by a spy around read_file",
                 "nested encrypted documents inside plain archives / mails are not generated (the statement is about the input's own container)"]}
